@@ -8,7 +8,7 @@ from ..vlib import Report, Inconclusive
 
 PROPS = ["X07"]
 
-FAMILIES = ["core", "squat", "key", "fault"]
+FAMILIES = ["core", "squat", "key", "fault", "race"]
 ISSUERS = ["I1", "I2", "I3"]
 INIT_TRUST = ["I1"]
 INIT_KEYS = ["I1", "I2"]
@@ -29,6 +29,7 @@ EXPECTED = {
     ("transient-failure-dropped", "fault"): "TransientRetried",
     ("transient-failure-dropped", "nokey"): "UnknownKeyRetried",
     ("transient-failure-dropped", "ctxdown"): "ContextErrorsSeen",
+    ("id-two-contents", "overlap"): "StoreAtomic",
 }
 
 
@@ -66,7 +67,7 @@ def variants_for(txs, tables, counters):
 
 
 def tx_of(steps):
-    return {s["t"] for s in steps if s.get("t") and s["a"] in ("Deliver", "Retry", "Replay", "Reprocess")}
+    return {s["t"] for s in steps if s.get("t") and s["a"] in ("Deliver", "Retry", "Replay", "Reprocess", "Begin", "Finish")}
 
 
 def select(behaviours, n, rnd):
@@ -133,6 +134,9 @@ def directed_scripts():
     out.append(dict(id="d-fault-cred", steps=[D("a", f=True), D("ra"), dict(a="Restart"), dict(a="Replay", t="a")]))
     out.append(dict(id="d-fault-rev", steps=[D("a"), D("ra", f=True), dict(a="Restart"), dict(a="Replay", t="ra")]))
     out.append(dict(id="d-ctx", steps=[D("y"), D("z"), D("j"), dict(a="Retry", t="y"), dict(a="CtxUp"), dict(a="Retry", t="y"), D("ry"), dict(a="Restart")]))
+    # overlapping handler calls for one id: a is held between look-up and write while b is delivered completely
+    out.append(dict(id="d-race-ab", steps=[dict(a="Begin", t="a"), D("b"), dict(a="Finish", t="a"), D("ra"), dict(a="Restart")]))
+    out.append(dict(id="d-race-both-held", steps=[dict(a="Begin", t="a"), D("f"), dict(a="Begin", t="b"), D("ra"), dict(a="Finish", t="b"), dict(a="Finish", t="a"), dict(a="Restart")]))
     out.append(dict(id="d-ctx-restart", steps=[D("y"), dict(a="Restart"), dict(a="Replay", t="y"), dict(a="CtxUp"), dict(a="Restart"), dict(a="Replay", t="y"), D("j"), dict(a="Reprocess", t="j")]))
     return out
 
@@ -168,23 +172,23 @@ def run(prop, tier, seed, replay=None):
     scripts = []
     counters = dict(fc=rnd.randrange(50), mc=rnd.randrange(50), vc=rnd.randrange(50), fr=rnd.randrange(50), vr=rnd.randrange(50))
     n_wit = 0
-    per_family = 120 if quick else 900
-    n_sim = 60 if quick else 400
+    per_family = 100 if quick else 600
+    n_sim = 60 if quick else 300
     from concurrent.futures import ThreadPoolExecutor
-    pool = ThreadPoolExecutor(max_workers=4)
+    pool = ThreadPoolExecutor(max_workers=6 if quick else 4)   # quick: 2 + 2 + 4 x 1 workers; thorough: 3 + 2 + 2 + 1
     fut = {}
-    order = FAMILIES if quick else ["fault", "core", "squat", "key"]   # the large ones first
+    order = FAMILIES if quick else ["fault", "core", "squat", "key", "race"]   # the large ones first
     for fam in order:
         check_cfg = "VcLife.%s.%s.cfg" % (fam, "quick" if quick else "thorough")
-        big = 3 if fam == order[0] else (2 if fam == order[1] else 1)
-        genw = (3 if fam == "core" else 1) if quick else (2 if fam == "core" else 1)   # never more than 8 workers at a time (pool of 4)
+        big = (2 if fam == "core" else 1) if quick else (3 if fam == order[0] else (2 if fam == order[1] else 1))
+        genw = 2 if fam == "core" else 1   # never more than 8 workers at a time
         fut[fam, "check"] = (check_cfg, pool.submit(tlc_ok, "MCVcLife", check_cfg, "prescriptive", timeout=900, workers=big))
         if not quick:   # vacuity guard (every action fires) on the small config: coverage mode is slow
             fut[fam, "cover"] = ("VcLife.%s.quick.cfg" % fam, pool.submit(tlc_ok, "MCVcLife", "VcLife.%s.quick.cfg" % fam, "coverage", timeout=900, coverage=True))
         gen_cfg = "VcLife.%s.gen.cfg" % fam
         fut[fam, "gen"] = (gen_cfg, pool.submit(tlc_ok, "MCVcLife", gen_cfg, "generation", timeout=900, workers=genw))
         fut[fam, "sim"] = (gen_cfg, pool.submit(vlib.tlc, "MCVcLife", gen_cfg, workers=1, simulate="num=%d" % n_sim, depth=24, seed=seed, timeout=300))
-    n_mix = 60 if quick else 600
+    n_mix = 60 if quick else 400
     fut["mix"] = ("VcLife.mix.gen.cfg", pool.submit(vlib.tlc, "MCVcLife", "VcLife.mix.gen.cfg", workers=1, simulate="num=%d" % n_mix, depth=40, seed=seed, timeout=300))
     fut["pub"] = ("VcLife.pub.gen.cfg", pool.submit(tlc_ok, "MCVcLife", "VcLife.pub.gen.cfg", "publisher", timeout=300))
     fut["live"] = ("VcLife.live.cfg", pool.submit(tlc_ok, "MCVcLife", "VcLife.live.cfg", "liveness", timeout=900))
@@ -211,7 +215,7 @@ def run(prop, tier, seed, replay=None):
         models.append(dict(cfg=gen_cfg, states=g.distinct, transitions=g.generated, depth=g.depth, wall_s=round(g.wall, 1), variant="descriptive"))
         wit = [p["steps"] for p in g.printed if isinstance(p, dict) and "steps" in p]
         n_wit += len(wit)
-        chosen = select(wit, per_family, rnd)
+        chosen = select(wit, per_family if fam != "race" else per_family // 2, rnd)
         s = fut[fam, "sim"][1].result()
         if s.error and "timeout" in s.error:
             raise Inconclusive(s.error)
@@ -312,8 +316,9 @@ def run(prop, tier, seed, replay=None):
         for cfg, inv in (("VcLife.squat.dev.cfg", "StoredAreValid"), ("VcLife.squat.dev2.cfg", "OrderIndependent"),
                          ("VcLife.key.dev.cfg", "TransientNotDropped"), ("VcLife.key.dev2.cfg", "OrderIndependent"),
                          ("VcLife.fault.dev.cfg", "TransientNotDropped"), ("VcLife.fault.dev2.cfg", "OrderIndependent"),
-                         ("VcLife.fault.dev3.cfg", "TransientNotDropped"), ("VcLife.live.dev.cfg", "EventuallyStored")):
-            d = vlib.tlc("MCVcLife", cfg, timeout=600)
+                         ("VcLife.fault.dev3.cfg", "TransientNotDropped"), ("VcLife.race.dev.cfg", "IdUnique"),
+                         ("VcLife.live.dev.cfg", "EventuallyStored")):
+            d = vlib.tlc("MCVcLife", cfg, timeout=600, workers=4)
             got = d.violation if d.violation not in (None, "temporal") else (inv if inv in (d.error or "") + d.raw[-3000:] and ("violated" in (d.error or "") or d.violation == "temporal") else None)
             if got != inv:
                 raise Inconclusive("vacuity guard: %s must violate %s, TLC says %s / %s" % (cfg, inv, d.violation, d.error))
@@ -323,7 +328,7 @@ def run(prop, tier, seed, replay=None):
     transitions += live.generated
     models.append(dict(cfg="VcLife.live.cfg", states=live.distinct, transitions=live.generated, property="EventuallyStored, EventuallyRevoked, EventuallyQuiet under FairSpec (prescriptive variant)"))
     if not quick:
-        missing = [a for a in ("Deliver", "Retry", "Restart", "Replay", "Reprocess", "SetTrust", "LearnKey", "CtxUp") if not cover.get(a)]
+        missing = [a for a in ("Deliver", "Retry", "Restart", "Replay", "Reprocess", "SetTrust", "LearnKey", "CtxUp", "Begin", "Finish") if not cover.get(a)]
         if missing:
             raise Inconclusive("vacuity: actions never fired in the exhaustive runs: %s" % missing)
 
@@ -338,10 +343,11 @@ def run(prop, tier, seed, replay=None):
                     "behaviours of the DESCRIPTIVE variant (one witness per distinct terminal state and per distinct state departing from the statement, "
                     "simulation runs, directed behaviours) are replayed on two real VCR instances; a self-contained oracle judges Resolve / Search / "
                     "IsRevoked / Verify / Trusted / Untrusted and the receivers' answers after every step; every recorded run is validated by TLC "
-                    "against TraceVcLife.tla (observation of the model = observation of the code)")
+                    "against TraceVcLife.tla (observation of the model = observation of the code); overlapping handler calls for one id are "
+                    "scheduled through a gate in the JSON-LD document loader; the issuing node's publisher is run for every configuration TLC enumerates")
     vlib.write_evidence(prop, tier, seed, "model_checking", cov, time.time() - t0, len(rep.violations),
                         ["ECDSA / SHA-256 / JSON-LD canonicalisation are correct", "the DAG hands every payload event to every subscriber (Dag.tla, C14)",
-                         "did store resolves by time as specified in DidStore.tla (C10)", "one handler call at a time on the receiving node",
+                         "did store resolves by time as specified in DidStore.tla (C10)", "at most two overlapping handler calls, split at ONE point (between id look-up and write)",
                          "small scope: 3 issuers, <= 8 transactions per family, <= 1 restart, <= 1 injected store failure in the exhaustive runs",
                          "restart = orderly shutdown (no crash inside a handler)"])
     return rep.finish()
